@@ -13,6 +13,7 @@ import ReqVerif.Model.Frontends
 import ReqVerif.Model.Repos
 import ReqVerif.Model.Cache
 import ReqVerif.Model.SolutionText
+import ReqVerif.Model.BazelLoader
 /-!
 rvdriver: line protocol between the Python harness and the executable models.
 One JSON object per input line (`{"op": ..., ...}`), one JSON value per output line.
@@ -318,6 +319,21 @@ def opLoadSolution (j : Json) : Json :=
     | some .emptySource => Json.str "ValueError"
     | none => Json.null)]
 
+/-! ### Bazel lock loader (C19) -/
+
+def opLoadBazel (j : Json) : Json :=
+  let lock : BZ.LabelParts := { repository := jChars j "repository", package := jChars j "package" }
+  match BZ.parseLockfile ((jStrs j "lines").map String.toList) lock with
+  | .error .tooShort => Json.mkObj [("fail", "too-short")]
+  | .error .noHash => Json.mkObj [("fail", "no-hash")]
+  | .error .noUrl => Json.mkObj [("fail", "no-url")]
+  | .ok es => Json.mkObj [("entries", Json.arr (es.map fun e =>
+      Json.mkObj [("package", str e.package), ("key", str (BZ.sanitize e.package)), ("version", str e.version), ("sha256", str e.sha256),
+                  ("via", jsonStrs (e.via.map str)),
+                  ("url", match e.loc with | .url u => Json.str (str u) | .whl _ => Json.null),
+                  ("whl", match e.loc with | .whl l => Json.str (str l) | .url _ => Json.null),
+                  ("deps", jsonStrs ((BZ.depsOf es e.package).map str))]).toArray)]
+
 def dispatch (op : String) (j : Json) : Json :=
   match op with
   | "merge" => opMerge j
@@ -335,6 +351,7 @@ def dispatch (op : String) (j : Json) : Json :=
   | "cache" => opCache j
   | "write-solution" => opWriteSolution j
   | "load-solution" => opLoadSolution j
+  | "load-bazel" => opLoadBazel j
   | "scan-page" => opScanPage j
   | "requires-python" => opRequiresPython j
   | "wheel-name" => opWheelName j
